@@ -35,3 +35,30 @@ func (n *Node) EIP712Tx(signer Account, msgs []sdk.Msg, gas uint64, fee sdk.Coin
 	}
 	return n.Enc.TxConfig.TxEncoder()(b.GetTx())
 }
+
+// EIP712TxChain is EIP712Tx signed for an arbitrary chain id string ("" = the node's).
+func (n *Node) EIP712TxChain(signer Account, msgs []sdk.Msg, gas uint64, fee sdk.Coins, legacyExt, legacyTyped bool, chainID string) (bz []byte, err error) {
+	defer func() {
+		if rec := recover(); rec != nil {
+			err = Errf("eip712 builder panicked: %v", rec)
+		}
+	}()
+	if chainID == "" {
+		chainID = n.Cfg.ChainID
+	}
+	ctx := n.Ctx()
+	if chainID != n.Cfg.ChainID {
+		ctx = ctx.WithChainID(chainID)
+	}
+	b, err := utiltx.PrepareEIP712CosmosTx(ctx, n.App, utiltx.EIP712TxArgs{
+		CosmosTxArgs: utiltx.CosmosTxArgs{
+			TxCfg: n.Enc.TxConfig, Priv: signer.Priv, ChainID: chainID, Gas: gas, Fees: fee, Msgs: msgs,
+		},
+		UseLegacyExtension: legacyExt,
+		UseLegacyTypedData: legacyTyped,
+	})
+	if err != nil {
+		return nil, err
+	}
+	return n.Enc.TxConfig.TxEncoder()(b.GetTx())
+}
